@@ -119,18 +119,25 @@ func joinHex(xs []string) string {
 	return strings.Join(o, ",")
 }
 
-func (s *Sess) emitOp(name string, args []string, o obsT) {
+func (s *Sess) emitOp(name string, args []string, o obsT) { s.emitOpX(name, args, o, true) }
+
+// emitOpRaw: the x-amz-version-id slot carries something else (do not record it as a version id)
+func (s *Sess) emitOpRaw(name string, args []string, o obsT) { s.emitOpX(name, args, o, false) }
+
+func (s *Sess) emitOpX(name string, args []string, o obsT, noteV bool) {
 	r := o.r
 	etag := o.etag
 	if etag == "" {
 		etag = r.Header.Get("ETag")
 	}
 	body := r.Body
-	if r.Status < 200 || r.Status > 299 || name == "list" || name == "lsb" || name == "mdel" || name == "copy" || name == "ver" {
+	if r.Status < 200 || r.Status > 299 || name == "list" || name == "lsb" || name == "mdel" || name == "copy" || name == "ver" || name == "init" || name == "done" || name == "lsp" || name == "lsu" {
 		body = nil
 	}
 	vid := r.Header.Get("x-amz-version-id")
-	s.noteVid(vid)
+	if noteV {
+		s.noteVid(vid)
+	}
 	fields := append([]string{s.prop, "O", name}, args...)
 	contents := "-"
 	if len(o.contents) > 0 {
